@@ -1652,6 +1652,9 @@ async fn c19_case(seed: u64, i: u64, entries: usize, tcp: bool) -> CaseOut {
     out.count("states_fetched", 1);
     out.count("entries_in_fetched_states", (listing.0.len() + listing.1.len()) as u64);
     out.counts.push((if tcp { "fetched_over_tcp" } else { "fetched_in_memory" }, 1));
+    if listing.0.len() + listing.1.len() >= 100_000 {
+        out.count("states_of_more_than_100000_entries_fetched", 1);
+    }
     let desc = json!({"entries_requested": entries, "live": listing.0.len(), "tombstones": listing.1.len(), "origins": origins, "hour_scale": hour_scale, "purged": purge, "transport": if tcp { "tcp" } else { "in-memory" }});
     match got {
         Err(_) => out.violate("C19:get_state-panicked", desc.clone()),
@@ -1827,7 +1830,7 @@ pub fn c19(args: &Args) {
     let mut report = Report::new(
         args,
         "E1-actor",
-        "keyspace states built through real actor messages (both sources, 1..200 origins, inserts and deletes, hour-scale or dense stamps, optional purge): empty, tombstone-heavy, sizes straddling every power of two up to 20 000 entries. The sender's state = an independent shadow OrSWotSet kept by the harness (same operations applied the way the actor applies them; never serialized; cross-checked against the sender's storage listing) is compared with the actor's Serialize reply and with what ReplicationClient::get_state returns over the in-memory transport and, for a sample, over real loopback HTTP/2 (chunked bodies): same listing of live ids / tombstones / stamps and the same will_apply decisions on a battery of probes (keys present and absent x stamps around present stamps and cut-offs x origins). For small replies EVERY bit, for large ones random bits of the reply are corrupted in transit: the result must be Err, never a state, never a panic. The debug build keeps rustc's misaligned-dereference checks on for all sizes. Non-trivial: every state; distinct = distinct (live, tombstones, origins, spread, purge, transport).",
+        "keyspace states built through real actor messages (both sources, 1..200 origins, inserts and deletes, hour-scale or dense stamps, optional purge): empty, tombstone-heavy, sizes straddling every power of two up to 20 000 entries, and over real TCP one state of 150 000 entries (thorough: also 400 000) whose serialized form is larger than 2 MiB. The sender's state = an independent shadow OrSWotSet kept by the harness (same operations applied the way the actor applies them; never serialized; cross-checked against the sender's storage listing) is compared with the actor's Serialize reply and with what ReplicationClient::get_state returns over the in-memory transport and, for a sample, over real loopback HTTP/2 (chunked bodies): same listing of live ids / tombstones / stamps and the same will_apply decisions on a battery of probes (keys present and absent x stamps around present stamps and cut-offs x origins). For small replies EVERY bit, for large ones random bits of the reply are corrupted in transit: the result must be Err, never a state, never a panic. The debug build keeps rustc's misaligned-dereference checks on for all sizes. Non-trivial: every state; distinct = distinct (live, tombstones, origins, spread, purge, transport).",
     );
     if let Some(path) = &args.replay {
         let r = read_replay(path);
@@ -1918,7 +1921,8 @@ pub fn c19(args: &Args) {
     run_cases(&mut report, n_conc, args.threads, Duration::from_secs(args.pick(60, 900)), |i| block_on_paused(c19_concurrent_case(seed, i)));
     report.floor("states_fetched_while_the_keyspace_was_written", 20_000);
     // sample over real TCP
-    let tcp_sizes: Vec<usize> = vec![0, 1, 17, 300, 1024, 5000, 20_000];
+    // (the last ones are states whose serialized form exceeds 2 MiB / 6 MiB: "for states of any size")
+    let tcp_sizes: Vec<usize> = if args.tier == Tier::Quick { vec![0, 1, 17, 300, 1024, 5000, 20_000, 150_000] } else { vec![0, 1, 17, 300, 1024, 5000, 20_000, 150_000, 400_000] };
     let outs = block_on_real(4, async move {
         let mut v = Vec::new();
         for (k, e) in tcp_sizes.iter().enumerate() {
@@ -1933,6 +1937,7 @@ pub fn c19(args: &Args) {
     report.floor("states_fetched", 100);
     report.floor("corrupted_state_replies", 1_000);
     report.floor("fetched_over_tcp", 5);
+    report.floor("states_of_more_than_100000_entries_fetched", 1);
     report.finish(args);
 }
 
